@@ -168,6 +168,17 @@ fn build(specs: Vec<Spec>, next_id: &mut usize, anonymous_default: bool) -> Vec<
             n => rest.push(n),
         }
     }
+    // two defaults in one branch: only one of them can be first; in half of the trees it is the
+    // default sub-branch that comes before the default leaf
+    if have_leaf && have_branch {
+        let odd = out.iter().map(|n| n.name().len()).sum::<usize>() % 2 == 1;
+        if odd {
+            if let Some(i) = out.iter().position(|n| n.is_branch() && n.is_default()) {
+                let b = out.remove(i);
+                out.insert(0, b);
+            }
+        }
+    }
     out.extend(rest);
     // remove children whose mnemonic conflicts with one already visible
     let mut kept: Vec<TNode> = Vec::new();
